@@ -122,7 +122,7 @@ pub fn build_case(rng: &mut Rng, rep: &mut Report, thorough: bool) -> Option<Str
             let mut r2 = Rng::new(rng.next());
             let sig = *rng.pick(&flacref::pcm::ALL_SIGNALS);
             let samples = flacref::pcm::generate(sig, channels as usize, bps, len, &mut r2);
-            let obs = mon::guard(|| w.write(rate, channels, bps, &samples).map_err(|e| format!("{e:?}")));
+            let obs = mon::guard(|| w.write(rate, channels, bps, &samples).map_err(|e| crate::api::show(&e)));
             match obs {
                 Err(p) => {
                     rep.violation("panic", p.signature(), format!("FlacStreamWriter::write: {} at {}", p.msg, p.location), J::obj().set("rate", rate).set("channels", channels).set("bps", bps).set("len", len));
